@@ -359,6 +359,140 @@ Qed.
 Lemma ref_cfg_wf : wf_cfg ref_cfg = true.
 Proof. vm_compute. reflexivity. Qed.
 
+(* ------------------------------------------------------------------ one frame per logged call *)
+Definition own (i : nat) (l : list (nat * N)) : list (nat * N) :=
+  filter (fun p => Nat.eqb (fst p) i) l.
+
+Lemma order_run_strong f sched :
+  wf_sys f ->
+  exists p, ends_a (trace (run f sched)) = p ++ frames (trace (run f sched))
+            /\ (p = [] \/ exists i k, p = [(i, k)] /\ holder (run f sched) = Some i).
+Proof.
+  intros W. destruct (inv_run f sched W) as [ds I].
+  exists (pend (holder (run f sched)) ds). split; [apply (inv_ord _ _ I)|].
+  unfold pend. destruct (holder (run f sched)) as [h|]; [|left; reflexivity].
+  destruct (ds h); try (left; reflexivity). right. eauto.
+Qed.
+
+Lemma own_frames_run f sched i :
+  wf_sys f ->
+  own i (ends_a (trace (run f sched))) = own i (frames (trace (run f sched)))
+  \/ exists k, own i (ends_a (trace (run f sched))) = (i, k) :: own i (frames (trace (run f sched)))
+               /\ holder (run f sched) = Some i.
+Proof.
+  intros W. destruct (order_run_strong f sched W) as [p [E [->|[h [k [-> H]]]]]].
+  - left. rewrite E. reflexivity.
+  - rewrite E. unfold own. cbn [app filter fst]. destruct (Nat.eqb_spec h i) as [->|NE].
+    + right. exists k. split; [reflexivity | exact H].
+    + left. reflexivity.
+Qed.
+
+(* every older part of a trace is the trace of a run *)
+Lemma step_trace st i : trace (step st i) = trace st \/ exists ins, trace (step st i) = (i, ins) :: trace st.
+Proof.
+  unfold step. destruct (code st i) as [|ins r]; [left; reflexivity|].
+  destruct (enabled (holder st) ins); [right; eexists; reflexivity | left; reflexivity].
+Qed.
+
+Lemma run_snoc f sched i : run f (sched ++ [i]) = step (run f sched) i.
+Proof. unfold run. rewrite fold_left_app. reflexivity. Qed.
+
+Lemma suffix_is_run f sched : forall l1 l2,
+  trace (run f sched) = l1 ++ l2 -> exists sched2, trace (run f sched2) = l2.
+Proof.
+  induction sched as [|i r IH] using rev_ind; intros l1 l2 E.
+  - cbn in E. symmetry in E. apply app_eq_nil in E. destruct E as [_ ->]. exists []. reflexivity.
+  - rewrite run_snoc in E. destruct (step_trace (run f r) i) as [S|[ins S]]; rewrite S in E.
+    + eapply IH. exact E.
+    + destruct l1 as [|x l1]; cbn [app] in E.
+      * exists (r ++ [i]). rewrite run_snoc, S. exact E.
+      * inversion E as [[EX ET]]. eapply IH. exact ET.
+Qed.
+
+Lemma ends_a_in i k tr : In (i, k) (ends_a tr) -> In (i, IEnd k true true) tr.
+Proof.
+  induction tr as [|[j ins] r IH]; cbn [ends_a]; [tauto|].
+  destruct ins as [ | | k0 m | k0 m a | k0 | k0 | | ]; try (intros H; right; apply IH; exact H).
+  destruct m, a; try (intros H; right; apply IH; exact H).
+  intros [E|H]; [inversion E; subst; left; reflexivity | right; apply IH; exact H].
+Qed.
+
+Lemma frame_after_end f sched i k :
+  wf_sys f ->
+  In (i, IApp k) (trace (run f sched)) ->
+  happens_before (i, IEnd k true true) (i, IApp k) (trace (run f sched)).
+Proof.
+  intros W HI. apply in_split in HI. destruct HI as [l1 [l2 E]].
+  destruct (suffix_is_run f sched l1 _ E) as [s2 E2].
+  destruct (order_run_strong f s2 W) as [p [EO _]]. rewrite E2 in EO. cbn [ends_a frames] in EO.
+  assert (HI : In (i, k) (ends_a l2)) by (rewrite EO; apply in_or_app; right; left; reflexivity).
+  apply ends_a_in in HI. apply in_split in HI. destruct HI as [m1 [m2 EM]].
+  exists l1, m1, m2. rewrite E, EM. reflexivity.
+Qed.
+
+Lemma dstep_runended d d' : dstep d IRunEnded = Some d' -> d = DOut.
+Proof. destruct d; cbn; congruence. Qed.
+
+Lemma frames_complete_at_run_end f sched i l1 l2 :
+  wf_sys f ->
+  trace (run f sched) = l1 ++ (i, IRunEnded) :: l2 ->
+  own i (ends_a l2) = own i (frames l2).
+Proof.
+  intros W E.
+  destruct (suffix_is_run f sched l1 _ E) as [s1 E1].
+  destruct (suffix_is_run f sched (l1 ++ [(i, IRunEnded)]) l2) as [s2 E2].
+  { rewrite E, <- app_assoc. reflexivity. }
+  (* in the state with trace l2 the next instruction of i is IRunEnded *)
+  pose proof (program_order f s1 i) as P1. pose proof (program_order f s2 i) as P2.
+  rewrite E1 in P1. rewrite E2 in P2. rewrite proj_cons_same in P1. cbn [rev] in P1.
+  rewrite <- app_assoc in P1. cbn [app] in P1. rewrite <- P2 in P1.
+  apply app_inv_head in P1.
+  destruct (inv_run f s2 W) as [ds I].
+  pose proof (inv_acc _ _ I i) as A. rewrite <- P1 in A. apply daccept_cons in A.
+  destruct A as [d' [DS _]]. apply dstep_runended in DS.
+  destruct (own_frames_run f s2 i W) as [EQ|[k [_ H]]].
+  - rewrite E2 in EQ. exact EQ.
+  - apply (inv_hold _ _ I) in H. congruence.
+Qed.
+
+(* mutating tool calls of a thread-attached session are logged calls *)
+Lemma compile_span_end_flag l k m s k' m' a' :
+  In (IEnd k' m' a') (compile_span l k m s) -> m' = m /\ a' = (l && has_append s)%bool.
+Proof.
+  unfold compile_span. intros HI. apply in_flat_map in HI. destruct HI as [o [_ Hi]].
+  destruct o; cbn [compile_op] in Hi.
+  - destruct Hi as [E|[]]; discriminate.
+  - destruct Hi as [E|[E|[]]]; [discriminate|]. inversion E. auto.
+  - destruct Hi as [E|[]]; discriminate.
+  - destruct l; [destruct Hi as [E|[]]; discriminate | destruct Hi].
+  - destruct Hi as [E|[]]; discriminate.
+  - destruct Hi as [E|[]]; discriminate.
+Qed.
+
+Lemma compile_calls_end_flag c names : spans_ok c -> forall k k' a',
+  In (IEnd k' true a') (compile_calls c true k names) -> a' = true.
+Proof.
+  intros S. induction names as [|n r IH]; intros k k' a' HI; cbn [compile_calls] in HI; [destruct HI|].
+  apply in_app_or in HI. destruct HI as [HI|HI]; [|eapply IH; exact HI].
+  destruct (requires_lock c n); apply compile_span_end_flag in HI; destruct HI as [M A].
+  - rewrite A, (so_loop_app _ S). reflexivity.
+  - discriminate.
+Qed.
+
+Lemma attached_calls_logged c a k a' :
+  wf_cfg c = true ->
+  (exists n, a = AEnv n true) \/ (exists ns, a = ALoop ns true) ->
+  In (IEnd k true a') (compile_actor c a) -> a' = true.
+Proof.
+  intros W K HI. apply wf_cfg_spans in W.
+  destruct K as [[n ->]|[ns ->]]; cbn [compile_actor] in HI; apply in_app_or in HI;
+    destruct HI as [HI|[E|[]]]; try discriminate.
+  - destruct (requires_lock c n); apply compile_span_end_flag in HI; destruct HI as [M A].
+    + rewrite A, (so_tool_app _ W). reflexivity.
+    + discriminate.
+  - eapply compile_calls_end_flag; eauto.
+Qed.
+
 (* ------------------------------------------------------------------ statements used by Props/C11.v *)
 Definition actors_t := nat -> option akind.
 
@@ -458,3 +592,19 @@ Lemma ex_blocked :
   /\ holder (run (sys ref_cfg ex_actors) ex_sched_blocked) = None
   /\ code (run (sys ref_cfg ex_actors) ex_sched_blocked) 4 = [].
 Proof. vm_compute. auto. Qed.
+
+Lemma c11_one_frame_proof c actors sched i :
+  wf_cfg c = true ->
+  (own i (ends_a (tr_of c actors sched)) = own i (frames (tr_of c actors sched))
+   \/ exists k, own i (ends_a (tr_of c actors sched)) = (i, k) :: own i (frames (tr_of c actors sched))
+                /\ holder (run (sys c actors) sched) = Some i)
+  /\ (forall k, In (i, IApp k) (tr_of c actors sched) ->
+        happens_before (i, IEnd k true true) (i, IApp k) (tr_of c actors sched))
+  /\ (forall l1 l2, tr_of c actors sched = l1 ++ (i, IRunEnded) :: l2 ->
+        own i (ends_a l2) = own i (frames l2)).
+Proof.
+  intros W. pose proof (sys_wf c actors W) as WS. split; [|split].
+  - apply own_frames_run. exact WS.
+  - intros k. apply frame_after_end. exact WS.
+  - intros l1 l2. apply frames_complete_at_run_end. exact WS.
+Qed.
